@@ -6,7 +6,7 @@
 3. The recorded events are validated by TLC against the specification's actions (Trace_TFB).
 4. Threaded runs (two real threads, seeded pauses) are recorded as begin/end events and validated
    with the linearisation trace specification (Trace_TFB_Lin)."""
-import json, os, random
+import json, os, random, shutil
 from pyverif.core import *
 
 
@@ -199,6 +199,29 @@ def validate_lin(run, tgood, max_report=5):
         run.cov["traces_validated_against_impl"] += who
         pending = pending[who + 1:]
     return rejected
+
+
+def replay(path):
+    d = json.load(open(path))
+    rep = d.get("replay", {})
+    case = dict(rep.get("case", {}))
+    case.pop("obs", None)
+    run = Run("C12")
+    run.replay_dir = os.path.join(run.wd, "replays")
+    sub = "tfb" if rep.get("kind") == "tfb" else "tfb_threads"
+    obs = run_harness(sub, [case], run.wd, shards=1, hang_timeout=60)
+    log("observation: %s" % json.dumps(obs[0]["obs"])[:600])
+    if obs[0]["obs"].get("result") != "ok" or "events" not in obs[0]["obs"]:
+        log("VIOLATION property=C12 replay=%s" % path)
+        return 1
+    rej = validate_traces(run, obs, "Trace_TFB", "Trace_TFB.cfg", "replay") if sub == "tfb" else validate_lin(run, obs)
+    shutil.rmtree(run.wd, ignore_errors=True)
+    if rej:
+        log("VIOLATION property=C12 replay=%s" % path)
+        log("  still violated: %s" % rej[0][1][:300])
+        return 1
+    log("[C12] replay: the recorded schedule is a behaviour of the specification")
+    return 0
 
 
 if __name__ == "__main__":
